@@ -85,7 +85,7 @@ def new_hasTraits(pyobj, **kw):
 def finalize(v):
     """C result -> Python-level value"""
     if isinstance(v, capi.NewTuple):
-        return tuple(finalize(x) for x in v)
+        return capi.final_tuple(v)
     return v
 
 
